@@ -2,6 +2,7 @@ package vt
 
 import (
 	"bytes"
+	"errors"
 	"os"
 	"sync/atomic"
 	"encoding/json"
@@ -61,6 +62,7 @@ type linkCase struct {
 	DrawN     int64     `json:"draw_n"`     // its argument
 	DrawCount int       `json:"draw_count"` // how many mirrored draws to report
 	SinkDelay []int64   `json:"sink_delay"` // ns the receiver takes to accept each write, cyclically (empty = always ready)
+	SinkFailAfter int   `json:"sink_fail_after"` // the receiver's k-th write (1-based) fails (connection reset by the peer); 0 = never
 	LinkStart []int64   `json:"link_start"` // per-link: virtual instant at which the connection is established (default 0)
 	Srcs    [][]srcEv   `json:"srcs"`   // per-link source scripts (link k uses Srcs[k] when present, else Src)
 }
@@ -92,6 +94,8 @@ type linkResult struct {
 	Draws    []int64      `json:"draws,omitempty"` // mirrored PRNG values after the reseed
 	StartDraws []float64  `json:"start_draws,omitempty"` // the first Float32 values of the source seeded at case start
 	Leak     string       `json:"leak,omitempty"`
+	LinksAfter int        `json:"links_after"` // len(ToxicCollection.links) after everything ended
+	ConnsAfter int        `json:"conns_after"`
 	Hang     bool         `json:"hang,omitempty"`    // the case wedged (no progress in real time): an API operation never returned
 	NotRun   bool         `json:"not_run,omitempty"` // after a wedged case the process exits; these are re-run by the driver // synctest's deadlock report: goroutines still blocked at the end
 }
@@ -102,6 +106,7 @@ type recSink struct {
 	mu     sync.Mutex
 	delays []int64
 	nw     int
+	failAt int
 	start  time.Time
 	writes []sinkWrite
 	data   []byte
@@ -111,6 +116,9 @@ type recSink struct {
 func (s *recSink) Write(b []byte) (int, error) {
 	s.mu.Lock()
 	defer s.mu.Unlock()
+	if s.failAt > 0 && len(s.writes)+1 >= s.failAt {
+		return 0, errors.New("write: connection reset by peer")
+	}
 	s.writes = append(s.writes, sinkWrite{int64(time.Since(s.start)), len(b)})
 	s.data = append(s.data, b...)
 	if len(s.delays) > 0 {
@@ -247,7 +255,7 @@ func runLinkCase(t *testing.T, c *linkCase) linkResult {
 		pr, pw := io.Pipe()
 		prs[k] = pr
 		pws[k] = pw
-		sinks[k] = &recSink{start: start, closed: -1, delays: c.SinkDelay}
+		sinks[k] = &recSink{start: start, closed: -1, delays: c.SinkDelay, failAt: c.SinkFailAfter}
 		if k >= len(c.LinkStart) || c.LinkStart[k] == 0 {
 			proxy.Toxics.StartLink(server, fmt.Sprintf("c%d%s", k, c.Dir), pr, sinks[k], dir)
 		}
@@ -387,6 +395,8 @@ func runLinkCase(t *testing.T, c *linkCase) linkResult {
 	results[0].Rx = counterValue(server.Metrics.ProxyMetrics.ReceivedBytesTotal, labels)
 	results[0].Tx = counterValue(server.Metrics.ProxyMetrics.SentBytesTotal, labels)
 	results[0].Ops = opRes
+	nlinks, nconns := proxy.VerifCounts()
+	results[0].LinksAfter, results[0].ConnsAfter = nlinks, nconns
 	results[0].Draws = mirrored
 	sm := rand.New(rand.NewSource(c.Seed + 1))
 	for j := 0; j < 8; j++ {
